@@ -81,7 +81,9 @@ func runC14(c *sim.Ctx) *sim.Violation {
 	cfg.NoHuge = true
 	newFrame := func() []byte {
 		if t.Bool(1, 12) {
-			return []byte{byte(t.Int(16)), 0x00} // type 0, any flags, remaining length 0
+			// remaining length 0: type 0 with any flags, PINGREQ, PINGRESP, DISCONNECT,
+			// AUTH - frames for which a decoder could hand out one shared object
+			return []byte{[]byte{byte(t.Int(16)), 0xC0, 0xD0, 0xE0, 0xE0, 0xF0}[t.Int(6)], 0x00}
 		}
 		if t.Bool(1, 10) {
 			raw := t.Bytes(1 + t.Int(10))
